@@ -90,6 +90,42 @@ def run_one(prop, ctx: core.Ctx, idx: int, case: dict, timeout_s: int) -> None:
     ctx._emit({"t": "case_end", "i": idx, "s": round(time.monotonic() - t0, 4), "cpu": round(time.process_time() - c0, 4)})
 
 
+def enable_decoy_cwd(workdir: str) -> str:
+    """The worker's working directory becomes a decoy: for every file written below the worker's scratch folder (the inputs a
+    case prepares for SPSDK) a file of the same NAME with other content appears in the working directory.  A build takes
+    its files from its project - the search paths it is given - wherever the tool is started."""
+    workdir = os.path.abspath(workdir)
+    decoy = os.path.join(workdir, "decoy_cwd")
+    os.makedirs(decoy, exist_ok=True)
+    os.chdir(decoy)
+    garbage = bytes([0xDE, 0xC0, 0x1E, 0x00]) * 64
+    made: set = set()
+
+    def hook(event, args):
+        if event != "open" or len(args) < 2 or not isinstance(args[0], str) or not isinstance(args[1], str):
+            return
+        if not any(c in args[1] for c in "wax"):
+            return
+        ap = os.path.abspath(args[0])
+        if not ap.startswith(workdir + os.sep) or ap.startswith(decoy + os.sep):
+            return
+        name = os.path.basename(ap)
+        if name in made:
+            return
+        made.add(name)
+        try:
+            fd = os.open(os.path.join(decoy, name), os.O_WRONLY | os.O_CREAT | os.O_EXCL, 0o644)
+        except OSError:
+            return
+        try:
+            os.write(fd, garbage)
+        finally:
+            os.close(fd)
+
+    sys.addaudithook(hook)
+    return decoy
+
+
 def main(argv: list[str]) -> int:
     prop_id, tier, seed, shard, nshards, outfile = argv[0], argv[1], int(argv[2]), int(argv[3]), int(argv[4]), argv[5]
     mode = argv[6] if len(argv) > 6 else "run"
@@ -105,6 +141,8 @@ def main(argv: list[str]) -> int:
             prop = load_prop(prop_id)
             if hasattr(prop, "install_monitors"):
                 prop.install_monitors(ctx)
+            if getattr(prop, "DECOY_CWD", False) and mode in ("run", "replay"):
+                enable_decoy_cwd(workdir)
             if getattr(prop, "ROTATING_PKI", 0) and mode == "run":
                 from vf import pki
 
